@@ -438,7 +438,7 @@ class SpecMixin:
                 st.vars.pop(pn, None)
             else:
                 st.vars[pn] = saved
-        st.assume(z3.ForAll([k], g(k) == body, patterns=[g(k)]))
+        st.assume(z3.ForAll([k], g(k) == body, patterns=[g(k)]), derived=True)   # conservative: g is fresh
         st.ghost = dict(st.ghost)
         st.ghost[name] = g
         return Sc("bool", z3.BoolVal(True))
@@ -512,9 +512,9 @@ class SpecMixin:
                 self.oblige(st, "lemma-premise", node, premise, "premise of %s (%s)" % (ast.unparse(inner)[:80], why))
             finally:
                 self.spec = saved
-            st.assume(concl)
+            st.assume(concl, derived=True)   # a consequence of the recursive definitions (lemma proved in pyvc/lemmas.py), premise obliged above
         else:
-            st.assume(whole)
+            st.assume(whole, derived=True)
         return Sc("bool", z3.BoolVal(True))
 
     def spec_same(self, node, st):
